@@ -207,7 +207,7 @@ def rule_P(ck, lib):
         croot = ("param", cb["params"][0].get("name"))
         n = 0
         for x in cexits:
-            if x.kind == "return" and x.value[0] == "ctor" and x.value[1] == OK:
+            if x.kind in ("return", "err") and x.value[0] == "ctor" and x.value[1] == OK:
                 n += 1
                 tup = x.value[2][0]
                 node_t, hdr_t = tup[1][1][1][0], tup[1][1][1][1]
